@@ -80,3 +80,31 @@ package ice
 //@ func (*Agent).startConnectivityChecks$1
 //@   props C04
 //@   site call updateConnectionState#1 assert start-enters-checking: arg1 == ConnectionStateChecking
+
+// Where the liveness timeouts come from: a configured value (zero included: it
+// disables the transition) is taken as is and counts as explicit, otherwise the default
+// applies; only a lite agent without an explicit value gets the lite default.
+//@ func (*AgentConfig).initWithDefaults
+//@   props C04
+//@   opt nosafety
+//@   site store disconnectedTimeout#1 assert default-only-when-unset: config.DisconnectedTimeout == nil && value == defaultDisconnectedTimeout
+//@   site store disconnectedTimeout#2 assert a-configured-timeout-is-taken-as-is: config.DisconnectedTimeout != nil && value == *config.DisconnectedTimeout
+//@   site store disconnectedTimeoutExplicit#1 assert explicit-iff-configured-zero-included: value == (config.DisconnectedTimeout != nil)
+//@   site store failedTimeout#1 assert default-only-when-unset-2: config.FailedTimeout == nil && value == defaultFailedTimeout
+//@   site store failedTimeout#2 assert a-configured-failed-timeout-is-taken-as-is: config.FailedTimeout != nil && value == *config.FailedTimeout
+
+//@ func (*Agent).applyICELiteDisconnectedTimeoutDefault
+//@   props C04
+//@   ensures lite-default-only-without-an-explicit-value: a.disconnectedTimeout == ite(a.lite && !a.disconnectedTimeoutExplicit, defaultLiteDisconnectedTimeout, old(a.disconnectedTimeout))
+
+//@ enumerate C04 stores ice.Agent.disconnectedTimeout in (*AgentConfig).initWithDefaults, WithDisconnectedTimeout, (*Agent).applyICELiteDisconnectedTimeoutDefault
+//@ enumerate C04 stores ice.Agent.disconnectedTimeoutExplicit in (*AgentConfig).initWithDefaults, WithDisconnectedTimeout
+//@ enumerate C04 stores ice.Agent.failedTimeout in (*AgentConfig).initWithDefaults, WithFailedTimeout
+
+// Application data from an already validated source counts as liveness of that remote.
+//@ func (*candidateBase).validateSTUNTrafficCache
+//@   props C04 C07
+//@   ghostvar refreshed bool = false
+//@   site call seen#1 assert refreshes-the-inbound-timestamp: arg0 == false
+//@   site call seen#1 ghost refreshed := true
+//@   ensures a-cache-hit-refreshes-the-remotes-liveness: result ==> refreshed
